@@ -76,3 +76,35 @@ package alert
 //@   ensures forall i int :: 0 <= i && i < len(t.sorted) ==> t.sorted[i].Level <= result
 //@   ensures len(t.sorted) == 0 ==> result == OK
 //@   ensures len(t.sorted) > 0 ==> exists i int :: 0 <= i && i < len(t.sorted) && t.sorted[i].Level == result
+
+//@ func (*Topics).newTopic
+//@   props C09
+//@   modifies nothing
+//@   ensures result != nil && fresh(result) && fresh(result.events) && topicInv(result)
+//@   ensures result.id == id && len(result.sorted) == 0 && len(result.handlers) == 0
+
+// Expected to catch: a missing topic leaves t nil and t.updateEvent dereferences it.
+//@ func (*Topics).UpdateEvent
+//@   props C09 C05
+//@   requires s.topics != nil
+//@   requires has(s.topics, topicID) ==> s.topics[topicID] != nil && topicInv(s.topics[topicID])
+//@   ensures has(s.topics, topicID) && s.topics[topicID] != nil
+//@   opt split=3
+
+//@ func (*Topic).EventStates
+//@   props C09 C05
+//@   requires topicInv(t)
+//@   ensures forall i int :: 0 <= i && i < len(t.sorted) ==> (has(result, t.sorted[i].ID) <==> t.sorted[i].Level >= minLevel)
+//@   ensures forall i int :: 0 <= i && i < len(t.sorted) && t.sorted[i].Level >= minLevel ==> result[t.sorted[i].ID] == *t.sorted[i]
+//@   ensures forall k string :: has(result, k) ==> has(t.events, k) && t.events[k].Level >= minLevel
+//@   loop 1
+//@     modifies map(events)
+//@     invariant 0 <= _i && _i <= len(t.sorted) && events != nil
+//@     invariant forall j int :: 0 <= j && j < _i ==> t.sorted[j].Level >= minLevel && has(events, t.sorted[j].ID) && events[t.sorted[j].ID] == *t.sorted[j]
+//@     invariant forall k string :: has(events, k) ==> has(t.events, k) && t.events[k].Level >= minLevel
+
+//@ func (*Topic).EventState
+//@   props C09 C05
+//@   requires topicInv(t)
+//@   ensures result1 == has(t.events, event)
+//@   ensures result1 ==> result0 == *t.events[event]
